@@ -33,6 +33,9 @@ def verdicts(case, res):
 
 
 def run_case(case, ctx):
+    if case.get("real"):
+        PC.judge_real(case, ctx, "FactoryFunctorPool" if case["pool"] == "factory" else "FunctorPool", False, True)
+        return
     res = P.run_pool_case(case)
     labs = P.labels_for(case, res)
     ctx.label(*labs)
@@ -67,7 +70,8 @@ def strategies(tier):
     late = PC.pool_strategy(max_calls=1).map(force_late)
     flow = PC.pool_strategy(max_calls=1).map(force_flow)
     n = 200000 if big else 6000
-    return [("drawn-general", general, n // 3), ("drawn-late-input", late, n // 3), ("drawn-flow-control", flow, n // 3)]
+    return [("drawn-general", general, n // 3), ("drawn-late-input", late, n // 3), ("drawn-flow-control", flow, n // 3),
+            ("real-processes-late-input", PC.real_strategy(late), 300 if big else 14, {"shrink": False})]
 
 
 def force_late(case):
